@@ -2003,6 +2003,16 @@ func (c *Cache) additionalAnswer(ctx context.Context, msg *dns.Msg) *dns.Msg {
 			}
 			return dnsutil.SetRcode(msg, dns.RcodeServerFailure, do)
 		}
+		if err == nil && respCname != nil && !respCname.AuthenticatedData {
+			// Whatever the target leg said is now part of what this reply
+			// states — its records, but just as much its rcode or its empty
+			// tail. A bare NXDOMAIN or empty NOERROR out of an insecure zone
+			// carries no record to merge, and the merge below was the only
+			// place the two AD bits met: the unauthenticated denial went out
+			// under the alias's AD. The resolver's DNAME splice ANDs them
+			// whatever the target holds; so does the chase.
+			msg.AuthenticatedData = false
+		}
 		if err == nil && (len(respCname.Answer) > 0 || len(respCname.Ns) > 0) {
 			target, child = searchAdditionalAnswer(msg, respCname)
 			// The sub-query's records are now part of the outer answer, so
